@@ -161,6 +161,34 @@ func runC18(c *Collector, r *Rng, thorough bool) {
 				},
 			}})
 		}
+		// a key as it comes off the wire: key_ops with a repeated entry ([2, "verify", 1] decodes to verify, verify, sign),
+		// kid, base IV and an extra parameter
+		if ck, err := cose.NewKeyFromPrivate(k.priv); err == nil {
+			ck.Ops = []cose.KeyOp{cose.KeyOpVerify, cose.KeyOpVerify, cose.KeyOpSign, cose.KeyOpSign}
+			ck.ID = []byte("kid")
+			ck.BaseIV = []byte{1, 2, 3}
+			if ck.Params != nil {
+				ck.Params[int64(-70000)] = []any{int64(1), "x"}
+			}
+			vals = append(vals, shared{"key-with-ops/" + k.alg.String(), func() string { return snapshotKey(ck) }, []func() string{
+				func() string { return res(ck.MarshalCBOR()) },
+				func() string {
+					v, err := ck.Verifier()
+					if err != nil {
+						return "err:" + errClass(err)
+					}
+					return fmt.Sprint("alg", v.Algorithm())
+				},
+				func() string {
+					v, err := ck.Signer()
+					if err != nil {
+						return "err:" + errClass(err)
+					}
+					return fmt.Sprint("alg", v.Algorithm())
+				},
+				func() string { return res(ck.MarshalCBOR()) },
+			}})
+		}
 		for _, sv := range vals {
 			before := sv.snap()
 			want := make([]string, len(sv.ops))
